@@ -92,6 +92,11 @@ var funcSpecs = []funcSpec{
 		fuel: map[int]string{1: "(Go.len rr).toNat + 1"}, alias: map[string]string{"sr.r": "rr"},
 		stopAt: "rr == input", stopRet: []string{"h", "rr", "none"}},
 	{rel: "", name: "multiUnwrap", abstract: []string{"errors.Is"}},
+	{rel: "", name: "(*X25519Recipient).Wrap", abstract: nativeAbstract, opaque: nativeOpaque, tape: true},
+	{rel: "", name: "(*X25519Identity).unwrap", abstract: nativeAbstract, opaque: nativeOpaque},
+	{rel: "", name: "(*X25519Identity).Unwrap", abstract: append([]string{"errors.Is"}, nativeAbstract...), opaque: nativeOpaque},
+	{rel: "", name: "(*ScryptRecipient).Wrap", abstract: nativeAbstract, opaque: nativeOpaque, tape: true},
+	{rel: "", name: "(*ScryptRecipient).WrapWithLabels", abstract: nativeAbstract, opaque: nativeOpaque, tape: true},
 	{rel: "", name: "Encrypt", abstract: []string{"age.wrapWithLabels", "age.headerMAC", "age.streamKey", "stream.NewWriter", "format.Marshal"},
 		opaque: map[string]string{"age.Recipient": "ρ", "io.Writer": "δ", "io.WriteCloser": "ω", "stream.Writer": "ω", "tapeτ": "τ"}, errInts: true, tape: true,
 		threaded: map[string][]string{"age.wrapWithLabels": {"tape"}, "format.Marshal": {"dst"}}},
@@ -102,6 +107,10 @@ var funcSpecs = []funcSpec{
 	{rel: "", name: "ParseIdentities", abstract: []string{"age.ParseX25519Identity"}, opaque: map[string]string{"Identity": "κ", "X25519Identity": "κ"}, errInts: true},
 	{rel: "", name: "ParseRecipients", abstract: []string{"age.ParseX25519Recipient"}, opaque: map[string]string{"Recipient": "κ", "X25519Recipient": "κ"}, errInts: true},
 }
+
+// the native recipients: the primitives are abstract
+var nativeAbstract = []string{"curve25519.X25519", "format.EncodeToString", "format.DecodeString", "age.aeadEncrypt", "age.aeadDecrypt", "scrypt.Key"}
+var nativeOpaque = map[string]string{"io.Reader": "κ", "tapeτ": "τ"}
 
 // internal/stream: the AEAD and the destination are abstract state, the source is a Go.Src
 var streamOpaque = map[string]string{"cipher.AEAD": "α", "io.Writer": "δ", "io.Reader": "Go.Src"}
@@ -140,6 +149,7 @@ type ftr struct {
 	arrInout  map[*types.Func]bool       // translated functions whose *[N]T parameter is handed back
 	structs   map[*types.Named]string    // struct types emitted as Lean structures
 	recvInout map[*types.Func]bool       // translated methods whose receiver is handed back as the last result
+	tapeOf    map[*types.Func]bool       // translated functions that take and hand back the random tape
 }
 
 // per-function state
@@ -584,6 +594,14 @@ func (c *fctx) exprAs(e ast.Expr, want types.Type) string {
 	return c.expr(e)
 }
 
+// sliceOrNil: a []byte argument that may be the literal nil
+func (c *fctx) sliceOrNil(e ast.Expr) string {
+	if c.isNil(e) {
+		return "[]"
+	}
+	return c.expr(e)
+}
+
 func (c *fctx) isNil(e ast.Expr) bool {
 	id, ok := ast.Unparen(e).(*ast.Ident)
 	if !ok {
@@ -695,6 +713,16 @@ func (c *fctx) expr(e ast.Expr) string {
 		return lit
 	case *ast.SelectorExpr:
 		if id, ok := x.X.(*ast.Ident); ok {
+			// a []byte variable of another package (curve25519.Basepoint): an abstract constant
+			if pn, ok := c.info().Uses[id].(*types.PkgName); ok && c.t.pr.ByPath[pn.Imported().Path()] == nil {
+				if v, ok := c.info().Uses[x.Sel].(*types.Var); ok {
+					if lt, ok := leanTypeOf(v.Type()); ok && lt == "(List UInt8)" {
+						an := pn.Imported().Name() + "_" + x.Sel.Name
+						c.useAbstractName(an, "("+an+" : (List UInt8))")
+						return an
+					}
+				}
+			}
 			if pn, ok := c.info().Uses[id].(*types.PkgName); ok && pn.Imported().Path() == "io" {
 				switch x.Sel.Name {
 				case "EOF":
@@ -991,6 +1019,19 @@ func (c *fctx) call(x *ast.CallExpr) string {
 					return c.expr(sel.X)
 				}
 			}
+			if o.Pkg().Path() == "strconv" && o.Name() == "Itoa" {
+				return "(Go.strconv_Itoa " + c.expr(x.Args[0]) + ")"
+			}
+			if o.Pkg().Path() == "encoding/hex" && o.Name() == "EncodeToString" {
+				return "(Go.hex_EncodeToString " + c.expr(x.Args[0]) + ")"
+			}
+			if o.Pkg().Path() == "golang.org/x/crypto/hkdf" && o.Name() == "New" {
+				if c.t.pr.text(c.fi.Pkg, x.Args[0]) != "sha256.New" {
+					c.fail(x, "hkdf.New with a hash other than sha256.New")
+				}
+				c.useAbstractName("hkdf_New_sha256", "(hkdf_New_sha256 : (List UInt8) → (List UInt8) → (List UInt8) → Go.M κ)")
+				return "(← hkdf_New_sha256 " + c.exprAs(x.Args[1], c.typeOf(x.Args[1])) + " " + c.sliceOrNil(x.Args[2]) + " " + c.expr(x.Args[3]) + ")"
+			}
 			if o.Pkg().Path() == "strconv" && o.Name() == "Atoi" {
 				return "(Go.strconv_Atoi " + c.expr(x.Args[0]) + ")"
 			}
@@ -1079,6 +1120,26 @@ func (c *fctx) call(x *ast.CallExpr) string {
 			}
 		}
 	case *types.Var:
+		// a package-level variable of function type that is listed as abstract (format.EncodeToString is one)
+		if fsig, isSig := o.Type().Underlying().(*types.Signature); isSig && o.Pkg() != nil && o.Parent() == o.Pkg().Scope() && c.spec != nil {
+			for _, a := range c.spec.abstract {
+				if a == o.Pkg().Name()+"."+o.Name() {
+					var ps, rs, parts []string
+					for i := 0; i < fsig.Params().Len(); i++ {
+						ps = append(ps, c.leanType(x, fsig.Params().At(i).Type()))
+					}
+					for i := 0; i < fsig.Results().Len(); i++ {
+						rs = append(rs, c.leanType(x, fsig.Results().At(i).Type()))
+					}
+					an := leanIdent(o.Pkg().Name()) + "_" + o.Name()
+					c.useAbstractName(an, fmt.Sprintf("(%s : %s → Go.M %s)", an, strings.Join(ps, " → "), tupleType(rs)))
+					for _, arg := range x.Args {
+						parts = append(parts, c.expr(arg))
+					}
+					return "(← " + an + " " + strings.Join(parts, " ") + ")"
+				}
+			}
+		}
 		// a call through a parameter of function type
 		if _, isSig := o.Type().Underlying().(*types.Signature); isSig && o.Parent() != c.fi.Pkg.Types.Scope() {
 			var parts []string
@@ -1515,6 +1576,14 @@ func (c *fctx) threadedVars(call *ast.CallExpr) []*types.Var {
 	}
 	if c.tapeVar != nil && f.Pkg().Path() == "crypto/rand" && f.Name() == "Read" {
 		out = append(out, c.tapeVar)
+	}
+	if c.tapeVar != nil && f != c.fi.Obj {
+		if fi := c.t.pr.Funcs[f]; fi != nil && c.t.translatable(fi) {
+			c.t.translate(fi, c, call)
+			if c.t.tapeOf[f] {
+				out = append(out, c.tapeVar)
+			}
+		}
 	}
 	if c.spec != nil {
 		for _, name := range c.spec.threaded[f.Pkg().Name()+"."+f.Name()] {
@@ -2002,6 +2071,37 @@ func (c *fctx) assign(e *emitter, ind int, st *ast.AssignStmt) {
 		return
 	}
 	define := st.Tok == token.DEFINE
+	// a call of a translated function that draws from the random tape: results, then the tape left over
+	if call, ok := ast.Unparen(st.Rhs[0]).(*ast.CallExpr); ok && len(st.Rhs) == 1 && (st.Tok == token.ASSIGN || st.Tok == token.DEFINE) && c.tapeVar != nil {
+		if f, ok := c.fi.Pkg.callee(call).(*types.Func); ok && f != c.fi.Obj {
+			if fi := c.t.pr.Funcs[f]; fi != nil && c.t.translatable(fi) {
+				name := c.t.translate(fi, c, call)
+				if c.t.tapeOf[f] && !c.t.recvInout[f] {
+					parts := []string{name}
+					for _, a := range c.t.absOf[f] {
+						c.useAbstractName(a.name, a.sig)
+						parts = append(parts, a.name)
+					}
+					if fi.Decl.Recv != nil {
+						parts = append(parts, c.expr(ast.Unparen(call.Fun).(*ast.SelectorExpr).X))
+					}
+					for _, a := range call.Args {
+						parts = append(parts, c.expr(a))
+					}
+					parts = append(parts, c.nameOf(c.tapeVar))
+					t := c.tmp()
+					e.add(ind, "let "+t+" ← "+strings.Join(parts, " "))
+					e.add(ind, c.nameOf(c.tapeVar)+" := "+t+strings.Repeat(".2", len(st.Lhs)))
+					proj := t
+					for _, l := range st.Lhs {
+						c.assignTo(e, ind, l, proj+".1", define)
+						proj += ".2"
+					}
+					return
+				}
+			}
+		}
+	}
 	// a call of a translated method that hands its receiver back: results, then the receiver's new value
 	if call, ok := ast.Unparen(st.Rhs[0]).(*ast.CallExpr); ok && len(st.Rhs) == 1 && (st.Tok == token.ASSIGN || st.Tok == token.DEFINE) {
 		if sel, ok := ast.Unparen(call.Fun).(*ast.SelectorExpr); ok {
@@ -2720,6 +2820,9 @@ func (t *ftr) translate(fi *FuncInfo, from *fctx, at ast.Node) string {
 			}
 		}
 	}
+	if c.tapeVar != nil {
+		t.tapeOf[fi.Obj] = true
+	}
 	if rv := sig.Recv(); rv != nil && c.isInout(rv) && len(c.inouts) == 1 {
 		t.recvInout[fi.Obj] = true // (with further in-out parameters the method can be translated but not called from translated code)
 	}
@@ -2743,7 +2846,7 @@ func recvTypeNameOf(fi *FuncInfo) string {
 func collectFuncs(pr *Prog, facts map[string]interface{}) *leanFile {
 	f := newLean("Funcs", "Selected small pure functions of the repository, TRANSLATED statement by statement (extract/funcs.go); semantics: AgeModel/GoSem.lean.")
 	t := &ftr{pr: pr, specs: map[*types.Func]*funcSpec{}, done: map[*types.Func]bool{}, busy: map[*types.Func]bool{}, globs: map[types.Object]string{},
-		absOf: map[*types.Func][]absParam{}, arrInout: map[*types.Func]bool{}, structs: map[*types.Named]string{}, recvInout: map[*types.Func]bool{}}
+		absOf: map[*types.Func][]absParam{}, arrInout: map[*types.Func]bool{}, structs: map[*types.Named]string{}, recvInout: map[*types.Func]bool{}, tapeOf: map[*types.Func]bool{}}
 	curFtr = t
 	var failed []string
 	for i := range funcSpecs {
